@@ -1,5 +1,5 @@
 (* Lemmas about Model/Gbdt.v (C20). *)
-From Coq Require Import List ZArith QArith Qabs Bool Arith Lia.
+From Coq Require Import List ZArith QArith Qabs Bool Arith Lia Permutation.
 From PF Require Import Gen.Tables Model.Gbdt.
 Import ListNotations.
 Close Scope Q_scope.
@@ -242,6 +242,89 @@ Lemma neg_to_nan_other z : z <> (-1)%Z -> neg_to_nan z = Some (inject_Z z).
 Proof. intros H. unfold neg_to_nan. destruct (Z.eqb_spec z (-1)); congruence. Qed.
 Lemma keep_int_all z : keep_int z = Some (inject_Z z).
 Proof. reflexivity. Qed.
+
+(* ------------------------------------------------------------------ the dictionary view *)
+Lemma stype_eqb_eq a b : stype_eqb a b = true <-> a = b.
+Proof. destruct a, b; simpl; split; intros H; try reflexivity; try discriminate. Qed.
+
+Definition relevant (e : stype * payload) : bool :=
+  stype_eqb (fst e) st_categorical || stype_eqb (fst e) st_numerical || stype_eqb (fst e) st_embedding.
+
+Lemma lookup_In k p d : NoDup (map fst d) -> (lookup k d = Some p <-> In (k, p) d).
+Proof.
+  induction d as [|[k' p'] r IH]; simpl; intros ND.
+  - split; [discriminate | tauto].
+  - inversion ND as [|? ? Hn ND']; subst.
+    destruct (stype_eqb k k') eqn:E.
+    + apply stype_eqb_eq in E. subst k'. split.
+      * intros H. inversion H; subst. auto.
+      * intros [H|H]; [inversion H; subst; reflexivity|].
+        exfalso. apply Hn. apply in_map_iff. exists (k, p). auto.
+    + rewrite (IH ND'). split; [auto|]. intros [H|H]; auto.
+      inversion H; subst. rewrite (proj2 (stype_eqb_eq k k) eq_refl) in E. discriminate.
+Qed.
+
+Lemma lookup_None k d : lookup k d = None <-> forall p, ~ In (k, p) d.
+Proof.
+  induction d as [|[k' p'] r IH]; simpl.
+  - split; auto.
+  - destruct (stype_eqb k k') eqn:E.
+    + apply stype_eqb_eq in E. subst. split; [discriminate|]. intros H. exfalso. apply (H p'). auto.
+    + rewrite IH. split.
+      * intros H p [X|X]; [inversion X; subst; rewrite (proj2 (stype_eqb_eq k k) eq_refl) in E; discriminate | apply (H p X)].
+      * intros H p X. apply (H p). auto.
+Qed.
+
+Lemma lookup_filter_relevant k d :
+  relevant (k, POther) = true -> lookup k (filter relevant d) = lookup k d.
+Proof.
+  intros R. induction d as [|[k' p'] r IH]; simpl; auto.
+  destruct (relevant (k', p')) eqn:R'; simpl.
+  - now rewrite IH.
+  - destruct (stype_eqb k k') eqn:E; auto.
+    apply stype_eqb_eq in E. subst. unfold relevant in *. simpl in *. congruence.
+Qed.
+
+Lemma NoDup_keys_filter (f : stype * payload -> bool) d : NoDup (map fst d) -> NoDup (map fst (filter f d)).
+Proof.
+  induction d as [|e r IH]; simpl; intros ND; auto. inversion ND; subst.
+  destruct (f e); simpl; auto. constructor; auto.
+  intros X. apply H1. apply in_map_iff in X. destruct X as [x [E I]]. apply filter_In in I.
+  apply in_map_iff. exists x. tauto.
+Qed.
+
+Lemma lookup_perm k d d' :
+  NoDup (map fst d) -> Permutation.Permutation d d' -> lookup k d = lookup k d'.
+Proof.
+  intros ND HP.
+  assert (ND' : NoDup (map fst d')).
+  { eapply Permutation.Permutation_NoDup; [apply Permutation.Permutation_map, HP | exact ND]. }
+  destruct (lookup k d) as [p|] eqn:E.
+  - symmetry. apply (lookup_In k p d' ND'). eapply Permutation.Permutation_in; [exact HP|].
+    now apply (lookup_In k p d ND).
+  - symmetry. apply lookup_None. intros p X. apply (proj1 (lookup_None k d) E p).
+    eapply Permutation.Permutation_in; [apply Permutation.Permutation_sym, HP | exact X].
+Qed.
+
+(* only the categorical / numerical / embedding entries matter, in whatever order the
+   dictionary holds them and whatever else it holds *)
+Theorem frame_of_dict_relevant_only d d' y :
+  NoDup (map fst d) -> NoDup (map fst d') ->
+  Permutation.Permutation (filter relevant d) (filter relevant d') ->
+  frame_of_dict d y = frame_of_dict d' y.
+Proof.
+  intros ND ND' HP. unfold frame_of_dict.
+  assert (L : forall k, relevant (k, POther) = true -> lookup k d = lookup k d').
+  { intros k R. rewrite <- (lookup_filter_relevant k d R), <- (lookup_filter_relevant k d' R).
+    apply lookup_perm; [apply NoDup_keys_filter, ND | exact HP]. }
+  now rewrite (L st_categorical eq_refl), (L st_numerical eq_refl), (L st_embedding eq_refl).
+Qed.
+
+Theorem adapters_relevant_only {R} (adapter : tframe -> option R) d d' y :
+  NoDup (map fst d) -> NoDup (map fst d') ->
+  Permutation.Permutation (filter relevant d) (filter relevant d') ->
+  on_dict adapter d y = on_dict adapter d' y.
+Proof. intros A B C. unfold on_dict. now rewrite (frame_of_dict_relevant_only d d' y A B C). Qed.
 
 (* ------------------------------------------------------------------ metric selection, over Gen/Tables.v *)
 Lemma init_default t : gbdt_init t None = gbdt_default_metric t.
